@@ -121,6 +121,14 @@ CLAIMED = {
         "Trusted: the reference model in einxverif/props/c11.py. Synthetic frameworks follow the property's own quantifier (disjoint tensor types, one registration step per framework).",
         "DESIGN.md §4 C11",
     ),
+    "C15": (
+        "property-based testing of einx.numpy.adapt_numpylike_reduce / adapt_numpylike_elementwise with instrumented user functions against the loop-semantics interpreter, over short call histories",
+        "Generated-input search over descriptions, user functions, keyword-only option values (incl. nan/inf, quotes, newlines, containers, numpy scalars) and repeated calls; oracles: loop semantics "
+        "with the same function as elementary operation, the documented argument conventions (axis tuple / equal-rank broadcastable tensors), options forwarded == and type-identical, option names never "
+        "usable as axes, wrong outputs rejected. Three defects of option forwarding are listed as known findings. Exploration only.",
+        "Trusted: einxverif/loopsem.py; adapt_with_vmap is not executable with numpy and is not covered.",
+        "DESIGN.md §4 C15",
+    ),
 }
 NOT_YET = "check not built yet in this round (see DESIGN.md §8 build order); the property has an executable oracle and will be claimed once its check is registered"
 
